@@ -17,6 +17,8 @@
                                       minus exactly the final `_get_type` / `_get_gtype`
     C04_method_sound                  `_is_method` ⇒ first parameter is a class/interface/record/union/boxed of
     C04_method_prefix_is_type_prefix  THIS namespace ∧ (annotated ∨ symbol starts with the type's prefix)
+    C04_method_not_of_foreign_type    first parameter of a type of an INCLUDED namespace ⇒ never a method (whatever the
+                                      name carries: the include type's `c:symbol-prefix` or its underscored name)
     C04_method_owner                  `_setup_method` hangs the function on the type of its first parameter only
     C04_method_ctor_sound             `_is_constructor` ⇒ origin is of this namespace, registered under the
                                       longest type prefix (or annotated), return type = origin or an ancestor
@@ -377,6 +379,23 @@ theorem C04_method_sound (env : Env) (st : NsState) (f : Node) (sub : Str)
         · simp [hk, hns] at h
       · simp [hk] at h
 
+/-- A function whose first parameter is a type of ANOTHER (included) namespace is never a method,
+    whatever its name and annotation: `gtk_object_frob (GObject *)` stays a function of Gtk even though
+    `object_frob` carries the symbol prefix of `GObject.Object`. -/
+theorem C04_method_not_of_foreign_type (env : Env) (st : NsState) (f : Node) (sub : Str)
+    (first : CT) (rest : List CT) (target : Target) (hp : f.params = first :: rest)
+    (ht : lookupCT env st first = some target) (hns : target.ns ≠ NsRef.cur) :
+    isMethod env st f sub = false := by
+  cases h : isMethod env st f sub with
+  | false => rfl
+  | true =>
+    obtain ⟨first', rest', target', hp', ht', _, hns', _⟩ := C04_method_sound env st f sub h
+    rw [hp] at hp'
+    cases hp'
+    rw [ht] at ht'
+    cases ht'
+    exact absurd hns' hns
+
 /-- … and the prefix in question is the type's registered symbol prefix or its underscored
     GIR name, nothing else. -/
 theorem C04_method_prefix_is_type_prefix (target : Target) (sub : Str) :
@@ -632,7 +651,7 @@ def wCfg : Cfg :=
 
 def wEnv : Env :=
   { cfg := wCfg,
-    incNodes := [[⟨"Object".toList, "GObject".toList, .cls, some "GObject".toList, none⟩]] }
+    incNodes := [[⟨"Object".toList, "GObject".toList, .cls, some "GObject".toList, none, some "object".toList⟩]] }
 
 def wClass (uid : Nat) (name usc : String) (parent : NsRef × Str) : Node :=
   { uid := uid, kind := .cls, name := name.toList, cid := ("Gtk" ++ name).toList,
@@ -712,6 +731,15 @@ def wShow : Node :=
   { uid := 4, kind := .function, name := "widget_show".toList, cid := "gtk_widget_show".toList,
     ret := ⟨"void".toList, 0, true⟩, params := [⟨"GtkWidget".toList, 1, false⟩] }
 example : isMethod wEnv wSt wShow "widget_show".toList = true := by decide +kernel
+/-- non-vacuity of `C04_method_not_of_foreign_type`: `gtk_object_frob (GObject *)` resolves to `GObject.Object`
+    (included namespace 0, symbol prefix `object`, which `object_frob` carries) and is not a method -/
+def wObjectFrob : Node :=
+  { wShow with uid := 5, name := "object_frob".toList, cid := "gtk_object_frob".toList,
+               params := [⟨"GObject".toList, 1, false⟩] }
+example : (lookupCT wEnv wSt ⟨"GObject".toList, 1, false⟩).map (fun t => (t.ns, t.name, t.cSymbolPrefix)) =
+    some (NsRef.inc 0, "Object".toList, some "object".toList) := by decide +kernel
+example : isMethod wEnv wSt wObjectFrob "object_frob".toList = false ∧
+    startsWith "object_frob".toList "object".toList = true := by decide +kernel
 /-- non-vacuity of `C04_method_owner`: `gtk_widget_show` hangs on Widget, the type of its first parameter -/
 example : (lookupCT wEnv wSt ⟨"GtkWidget".toList, 1, false⟩).map (·.name) = some "Widget".toList := by
   decide +kernel
